@@ -327,6 +327,26 @@ def tie_breaker(ctx):
             if not ((over_cand or over_zip) and g.ifs):
                 continue
             for cond in g.ifs:
+                # an approximate comparison makes *different* scores tie: the later
+                # scoring functions then overrule an earlier one that did decide
+                approx = isinstance(cond, ast.Call) and ast.unparse(cond.func).rsplit(".", 1)[-1] in ("isclose", "allclose")
+                if not approx and isinstance(cond, ast.Name) and over_zip:
+                    # a mask computed beforehand and walked in step with the candidates
+                    for a_ in g.iter.args:
+                        if isinstance(a_, ast.Name):
+                            for k_, v_, _s in flow.defs(rule).of(a_.id):
+                                if k_ == "value" and isinstance(v_, ast.Call) and ast.unparse(v_.func).rsplit(".", 1)[-1] in ("isclose", "allclose"):
+                                    approx, cond = True, v_
+                if approx:
+                    n_thr += 1
+                    chk.violation(
+                        "R04.c", rule, cond,
+                        f"candidates are kept with `{ast.unparse(cond)[:70]}`, an approximate comparison (relative tolerance): scores that "
+                        "differ - e.g. integer durations of 100000 and 100001 - count as a tie, and the tie breaker overrules "
+                        "the scoring function that distinguishes them",
+                        loc=rule.loc(cond),
+                    )
+                    continue
                 if isinstance(cond, ast.Compare) and len(cond.ops) == 1:
                     thr = cond.comparators[0]
                     if not isinstance(cond.ops[0], (ast.Eq, ast.GtE)):
